@@ -3,10 +3,12 @@
 (* The composed system as one transition system:                           *)
 (*   ph = 1  DKG!ApplyOp steps chosen by the strategy (deterministic)      *)
 (*   Handover at the final DKG state: hv := HandoverOf(st); wt (who will   *)
-(*           be triggered) is chosen among the honest keypers, |wt| >= T   *)
+(*           be triggered, per round) is chosen among the honest keypers,  *)
+(*           |wt[r]| >= T                                                  *)
 (*   ph = 2  GossipMC's network over the nodes of the honest keypers:      *)
-(*           Trig / Dlv / DropShare (<= MaxLoss lost share messages per    *)
-(*           receiver, within DropBudget), every delivery order            *)
+(*           Trig (a node's rounds in order) / Dlv / DropShare (<= MaxLoss *)
+(*           lost share messages per receiver and round, within            *)
+(*           DropBudget), every delivery order                             *)
 (* TLC checks the property layers of both phases on what the spec predicts *)
 (* to be observed and prints (hidden histories, VIEW) the phase-1          *)
 (* behaviour of every strategy (tag P1) and every schedule of phase 2 that *)
@@ -20,7 +22,7 @@ VARIABLES ph, sg, pc, st, g, hv, node, net, triggered, wt, dropped, obs, h1, h2
 vars == <<ph, sg, pc, st, g, hv, node, net, triggered, wt, dropped, obs, h1, h2>>
 
 ASSUME Run \subseteq StrategyNames
-ASSUME PrintT(<<"CONST", ToJson([n |-> N, t |-> T, byz |-> SetSeq(Byz), phaseLen |-> PhaseLen, ids |-> Ids,
+ASSUME PrintT(<<"CONST", ToJson([n |-> N, t |-> T, byz |-> SetSeq(Byz), phaseLen |-> PhaseLen, rounds |-> Rounds,
                                  strategies |-> [k \in DOMAIN Strategies |-> [name |-> Strategies[k].name, script |-> Strategies[k].script,
                                                                                held |-> SetToSeq({[k2 |-> p[1], kind |-> p[2]] : p \in Strategies[k].held})]],
                                  init |-> InitState])>>)
@@ -34,7 +36,8 @@ Init ==
     /\ sg \in {Strategies[k] : k \in {k2 \in DOMAIN Strategies : Strategies[k2].name \in Run}}
     /\ pc = 1 /\ st = InitState /\ g = GhostInit /\ hv = NoHv
     /\ node = [i \in G!Nodes |-> G!NodeInit]
-    /\ net = EmptyBag /\ triggered = {} /\ wt = {} /\ dropped = [i \in G!Nodes |-> 0]
+    /\ net = EmptyBag /\ triggered = [r \in G!RoundIdx |-> {}] /\ wt = [r \in G!RoundIdx |-> {}]
+    /\ dropped = [i \in G!Nodes |-> [r \in G!RoundIdx |-> 0]]
     /\ obs = NoObs /\ h1 = <<>> /\ h2 = <<>>
 
 (* ---- phase 1 ---- *)
@@ -52,21 +55,22 @@ Handover ==
     /\ ph = 1 /\ Final(st)
     /\ ph' = 2
     /\ hv' = HandoverOf(st)
-    /\ wt' \in {S \in SUBSET Part : Cardinality(S) >= T}
+    /\ wt' \in [G!RoundIdx -> {S \in SUBSET Part : Cardinality(S) >= T}]
     /\ UNCHANGED <<sg, pc, st, g, node, net, triggered, dropped, obs, h1, h2>>
 
 (* ---- phase 2 ---- *)
 Quiescent == ph = 2 /\ triggered = wt /\ net = EmptyBag
 
-Trig(i) ==
-    /\ ph = 2 /\ i \in wt \ triggered
-    /\ LET r == E2ETrigger(hv, node[i], i)
-           p == E2EPublish(r.nd, i, r.out) IN
-       /\ node' = [node EXCEPT ![i] = r.nd]
+Trig(i, r) ==
+    /\ ph = 2 /\ i \in wt[r] \ triggered[r]
+    /\ \A q \in G!RoundIdx : (q < r /\ i \in wt[q]) => i \in triggered[q]
+    /\ LET tr == E2ETrigger(hv, node[i], i, r)
+           p == E2EPublish(tr.nd, i, tr.out) IN
+       /\ node' = [node EXCEPT ![i] = tr.nd]
        /\ net' = net (+) p.pk
        /\ obs' = [a |-> "trig", n |-> i, verdict |-> "-", prod |-> p.prod, panic |-> ""]
-    /\ triggered' = triggered \cup {i}
-    /\ h2' = Append(h2, Act("trig", i, G!SharesMsg(i)))
+    /\ triggered' = [triggered EXCEPT ![r] = @ \cup {i}]
+    /\ h2' = Append(h2, Act("trig", i, G!SharesMsg(i, r)))
     /\ UNCHANGED <<ph, sg, pc, st, g, hv, wt, dropped, h1>>
 
 Dlv(pk) ==
@@ -82,25 +86,26 @@ Dlv(pk) ==
 
 DropShare(pk) ==
     /\ ph = 2 /\ pk \in BagToSet(net) /\ pk.m.t = "shares"
-    /\ dropped[pk.d] < MaxLoss /\ dropped[pk.d] < DropBudget(hv, wt)
+    /\ dropped[pk.d][pk.m.r] < MaxLoss /\ dropped[pk.d][pk.m.r] < DropBudget(hv, wt, pk.m.r)
     /\ net' = [q \in (DOMAIN net) \ {pk} |-> net[q]]
-    /\ dropped' = [dropped EXCEPT ![pk.d] = @ + 1]
+    /\ dropped' = [dropped EXCEPT ![pk.d][pk.m.r] = @ + 1]
     /\ obs' = [NoObs EXCEPT !.a = "drop", !.n = pk.d]
     /\ h2' = Append(h2, Act("drop", pk.d, pk.m))
     /\ UNCHANGED <<ph, sg, pc, st, g, hv, node, triggered, wt, h1>>
+
+WtSeq == [r \in G!RoundIdx |-> G!SortedSeq(wt[r])]
 
 EmitStep ==
     /\ (Emit /\ ph = 1 /\ ph' = 2) =>
           PrintT(<<"P1", ToJson([strat |-> sg.name, ops |-> h1, succ |-> SetSeq(SuccKeypers(st)),
                                  fin |-> SpecFin(st)])>>)
     /\ (Emit /\ ph = 2 /\ Quiescent') =>
-          PrintT(<<"B", ToJson([strat |-> sg.name, wt |-> G!SortedSeq(wt), sched |-> h2',
-                                enough |-> Enough(SpecX(st), wt)])>>)
+          PrintT(<<"B", ToJson([strat |-> sg.name, wt |-> WtSeq, sched |-> h2'])>>)
 
 Next ==
     /\ \/ \E o \in P1Ops : P1Step(o)
        \/ Handover
-       \/ \E i \in G!Nodes : Trig(i)
+       \/ \E i \in G!Nodes, r \in G!RoundIdx : Trig(i, r)
        \/ \E pk \in BagToSet(net) : Dlv(pk) \/ DropShare(pk)
     /\ EmitStep
 
@@ -124,7 +129,7 @@ HandoverOK == ph = 2 => HandoverFailed(SpecFin(st), SpecX(st)) = {}
 (* phase 2, per step (action property) and at quiescence *)
 StepOK == [][ph' = 2 => StepFailed(SpecX(st'), obs', node') = {}]_vars
 QuiescentOK ==
-    Quiescent => EndFailed(SpecX(st), [wt |-> G!SortedSeq(wt), pending |-> 0, judge |-> SpecJudge(hv, SpecX(st), node)], node) = {}
+    Quiescent => EndFailed(SpecX(st), [wt |-> WtSeq, pending |-> 0, judge |-> SpecJudge(hv, SpecX(st), node)], node) = {}
 
 View == <<ph, sg, pc, st, g, hv, node, net, triggered, wt, dropped>>
 =============================================================================
